@@ -235,6 +235,21 @@ def check(col: Collector, tier: str):
                     f"{' (collection)' if is_coll else ''}, i.e. {want_t}", f"{mod.rel}:{c.lineno}")
         clash = [a for a in args_ if a == res or (mo and a == mo)]
         col.add("C11.R5", f"{where}:{nm}", "names-distinct", not clash and len(set(args_)) == len(args_), f"arguments {args_}, result {res}, method object {mo}", f"{mod.rel}:{c.lineno}")
+    # every backend registers the built-in plug-ins it documents: the common math ones everywhere, the backend's own on top (frozen table)
+    PLUGINS = {"atlas_xaod_executor": ("get_jet_methods", "get_math_methods"), "cms_aod_executor": ("get_math_methods", "get_cms_functions"),
+               "cms_miniaod_executor": ("get_math_methods", "get_cms_functions")}
+    for ename, providers in PLUGINS.items():
+        ini = repo.find_class(ename).methods["__init__"]
+        pmi = parent_map(ini.node)
+        sup = [c for c in walk_no_nested(ini.node) if isinstance(c, ast.Call) and src(c.func) == "super().__init__"]
+        tbl = src(sup[0].args[3]) if sup and len(sup[0].args) > 3 else None
+        for prov in providers:
+            ups = [c for c in walk_no_nested(ini.node) if isinstance(c, ast.Call) and call_name(c) == "update" and tbl and src(c.func.value) == tbl
+                   and c.args and isinstance(c.args[0], ast.Call) and call_name(c.args[0]) == prov and not guards(ini.node, c, pmi)
+                   and sup and c.lineno < sup[0].lineno]
+            col.add("C11.R5", f"{ename}.__init__", f"registers-built-ins:{prov}", len(ups) == 1,
+                    f"the method table handed to the base class ({tbl}) must be updated with {prov}() unconditionally before it is handed over "
+                    "(otherwise DeltaR / isNonnull / getAttributeFloat calls are left as unknown calls on this backend)", ini.loc)
     # the two jet specs are registered under the names they implement
     jm = repo.function("get_jet_methods")
     rets = [r for r in walk_no_nested(jm.node) if isinstance(r, ast.Return) and isinstance(r.value, ast.Dict)]
